@@ -7,7 +7,7 @@ TRUSTED = [
     "time.ParseDuration runs in front of the model (its int64 result is the model's input; the theorem quantifies over all integers)",
     "uint64(float64) conversion modelled as truncation + two's complement (amd64); float rounding of Duration.Seconds() is exact for |d| <= 24h",
     "harness-compiled constants (Consts.v) — compiled against the current tree by the Go compiler",
-    "aws cloud-role template (makeCertificateTemplate) observed dynamically, literal not regenerated",
+    "cloud-role template lifetime (a literal inside makeCertificateTemplate) is observed through the real endpoint behind a fake STS, not regenerated",
 ]
 
 def corr(ctx, res, name, label):
@@ -42,6 +42,8 @@ def run(ctx):
                             if line.startswith(m.group(1) + "\t"):
                                 first = line.strip()
                     ctx.broken.append(("correspondence", "c03_validity_vs_model", {"first_mismatch": first, "indices": (res.get("c03_mismatches") or "")[:400]}))
+                if not corr(ctx, res, "c03_aws_mismatches", "cloud-role validity within 24 h"):
+                    ctx.broken.append(("correspondence", "c03_aws_validity", res.get("c03_aws_mismatches")))
                 if not corr(ctx, res, "c03_role_mismatches", "role/refresh validity = maxRoleRequestingCertDuration"):
                     ctx.broken.append(("correspondence", "c03_role_validity", res.get("c03_role_mismatches")))
     ctx.assumptions = ["clock readings are taken by the harness immediately before and after each request; the model must agree for some reading in that interval (+-1 s)"]
